@@ -91,6 +91,10 @@ def pureStep (f : List String) : String :=
     match ofHex p, seq.toNat? with
     | some pb, some n => "enc " ++ hexOrDash (encodeValue pb n)
     | _, _ => "bad-op enc"
+  | ["enc2", p1, s1, p2, s2] =>
+    match ofHex p1, s1.toNat?, ofHex p2, s2.toNat? with
+    | some a, some n, some b, some m => s!"enc2 {hexOrDash (encodeValue a n)} {hexOrDash (encodeValue b m)} stable=true"
+    | _, _, _, _ => "bad-op enc2"
   | ["dec", v] =>
     match ofHex v with
     | some vb =>
